@@ -885,7 +885,17 @@ def listcomp(eng, st, e):
         fv = eng.spec(e.elt, s1, env, modname=eng.modname(s1))
         if fv.ty.kind in ('rec', 'tup', 'fn', 'mod', 'none'):
             raise core.EngineError('comprehension element type at line %d' % e.lineno)
-        r = z3.Const(eng.name('comp'), z3.SeqSort(sort_of(fv.ty)))
+        # the result is a function of the input sequence and of the element expression's text, so
+        # that the same comprehension in the code and in a spec function denotes the same value
+        import zlib
+        free = sorted(n.id for n in ast.walk(e.elt) if isinstance(n, ast.Name) and
+                      n.id != g.target.id and s1.env.get(n.id) is not None and
+                      s1.env[n.id].ty.kind in ('int', 'str', 'bool'))
+        sig = ast.dump(e.elt) + '|' + g.target.id
+        fargs = [xs.t] + [s1.env[n].t for n in free]
+        f = z3.Function('comp_%d' % (zlib.crc32(sig.encode()) % 1000000),
+                        *([a.sort() for a in fargs] + [z3.SeqSort(sort_of(fv.ty))]))
+        r = f(*fargs)
         s2 = s1.copy()
         eng.fact(s2, z3.Length(r) == z3.Length(xs.t))
         ft = box(fv) if fv.ty.kind == 'any' else fv.t
